@@ -39,7 +39,7 @@ EXTRA = {
     'C06': [('TraceZigAcc', 'TraceZigAcc.cfg', 'zigacc.ndjson', {}, {'wedge': ['T', 'inwedge', 'xq'], 'ntail': ['T'], 'etail': ['cnt']})],
     'C10': [('TraceFloatLaw', 'TraceFloatLaw.cfg', 'tree_flaw.ndjson', {}, {'flaw': ['len', 'intervals']})],
     'C08': [('TraceFloatLaw', 'TraceFloatLaw.cfg', 'alias_flaw.ndjson', {}, {'alaw': ['wq']})],
-    'C12': [('TraceGeom', 'TraceGeom.cfg', 'geom_0.ndjson', {}, {'edge': ['last', 'zero_rejected'], 'img': ['got']})],
+    'C12': [('TraceGeom', 'TraceGeom.cfg', 'geom.ndjson', {}, {'edge': ['last', 'zero_rejected'], 'img': ['got']})],
 }
 
 
@@ -50,7 +50,7 @@ def corrupt(ev, field):
     elif isinstance(v, int):
         ev[field] = v + (3 if field in ('k',) else 1000003 if field in ('out', 'post', 'h', 'words', 'sum_words') else 1)
     elif isinstance(v, str):
-        ev[field] = 'Ok' if v != 'Ok' else 'Panic: selftest'
+        ev[field] = 'nan' if field == 'gcls' else ('Ok' if v != 'Ok' else 'Panic: selftest')
     elif isinstance(v, list) and v:
         if isinstance(v[0], list):
             # probabilities as 22/21/21 limbs: +64 in the top limb = 2^-16 (above every tolerance used); other nested lists: +1
